@@ -85,7 +85,21 @@ pub fn check_coordinates(rep: &mut Report, e: &JmespathError, source: &str, what
     ok
 }
 
-const CORES: [&str; 33] = [
+const CORES: [&str; 45] = [
+    // key expressions that contain successful non-call steps (slices, projections, multi-selects, ||)
+    // before the by-function rejects the key's type: the error still belongs to the by-function
+    "sort_by(`[{\"t\":[\"a\",\"b\"]},{\"t\":[\"c\"]}]`, &t[0:1])",
+    "max_by(`[{\"t\":[1,2]},{\"t\":[3]}]`, &t[::-1])",
+    "min_by(`[[1,2],[3]]`, &@[1:])",
+    "sort_by(`[{\"t\":[1]}]`, &t[*])",
+    "sort_by(`[{\"t\":[[1]]}]`, &t[])",
+    "max_by(`[{\"t\":[1]}]`, &t[?@])",
+    "min_by(`[{\"t\":1}]`, &{a: t})",
+    "sort_by(`[{\"t\":1}]`, &[t])",
+    "sort_by(`[{\"t\":1},{\"u\":1}]`, &t || `[]`)",
+    "max_by(`[{\"t\":1},{\"t\":true}]`, &t == `1`)",
+    "sort_by(`[{\"t\":[3,1]}]`, &t[0:2] | [::-1])",
+    "min_by(`[{\"t\":{\"a\":1}}]`, &t.*)",
     "merge(`{}`, `{}`, `1`)",
     "merge(`{\"a\":1}`, `{}`, `{}`, 'x')",
     "not_null(`null`, nofn(`1`))",
@@ -296,7 +310,7 @@ fn parse_case(rep: &mut Report, rng: &mut Rng) {
     let budget = 3 + rng.below(12) as i32;
     SentenceGen::new(rng, budget).expression(&mut parts);
     let s = join_tokens(&parts, rng);
-    let candidate = match rng.below(4) {
+    let candidate = match rng.below(6) {
         0 => mutate_tokens(&s, rng).unwrap_or(s),
         1 => {
             // truncate at a random char boundary
@@ -308,6 +322,8 @@ fn parse_case(rep: &mut Report, rng: &mut Rng) {
             }
         }
         2 => format!("{}{}", prefix(rng), char_soup(rng, 12)),
+        3 => refimpl::sentence::long_token_case(rng),
+        4 => format!("{}{}", prefix(rng), refimpl::sentence::lookalike_case(rng)),
         _ => format!("{}\n{}", s, char_soup(rng, 6)),
     };
     rep.evaluations += 1;
